@@ -1,20 +1,27 @@
 package c19
 
 import (
+	"encoding/base64"
 	"encoding/xml"
 	"fmt"
 	"strconv"
 	"strings"
 	"time"
 
+	"mellium.im/xmpp/bin"
 	"mellium.im/xmpp/commands"
+	"mellium.im/xmpp/crypto"
+	"mellium.im/xmpp/delay"
 	"mellium.im/xmpp/disco"
 	"mellium.im/xmpp/disco/info"
 	"mellium.im/xmpp/disco/items"
+	"mellium.im/xmpp/muc"
 	"mellium.im/xmpp/oob"
 	"mellium.im/xmpp/paging"
+	"mellium.im/xmpp/receipts"
 	"mellium.im/xmpp/roster"
 	"mellium.im/xmpp/stanza"
+	"mellium.im/xmpp/styling"
 	"mellium.im/xmpp/upload"
 	"mellium.im/xmpp/version"
 	"mellium.im/xmpp/xtime"
@@ -58,10 +65,17 @@ func u64s(v uint64, omitZero bool) string {
 	return strconv.FormatUint(v, 10)
 }
 
-// recCase compares one value of a flat record type with the model.
+// recCase compares one value of a flat record type with the model; a nil
+// reader means the type is written by xml.Marshal (struct tags).
 func recCase[T any](c *ctx, name string, v T, tr xml.TokenReader, vals func(*T) []fv) {
 	r := c.r
-	p := guard("TokenReader", func() ([]byte, []xml.Token, error) { return encodeTokens(tr) })
+	p := guard("TokenReader", func() ([]byte, []xml.Token, error) {
+		if tr == nil {
+			b, err := xml.Marshal(&v)
+			return b, nil, err
+		}
+		return encodeTokens(tr)
+	})
 	if p.panicked != "" || p.err != nil {
 		return // reported by layer 3
 	}
@@ -253,6 +267,85 @@ func modelCases(c *ctx) {
 			}
 			recCase(c, "xtime.Time", v, v.TokenReader(), func(v *xtime.Time) []fv {
 				return []fv{one(v.Time.Format("Z07:00")), one(v.Time.UTC().Format(time.RFC3339Nano))}
+			})
+		}
+		{
+			v := delay.Delay{From: g.jid(), Time: g.time(false), Reason: g.opt()}
+			recCase(c, "delay.Delay", v, v.TokenReader(), func(v *delay.Delay) []fv {
+				return []fv{one(v.From.String()), one(v.Time.UTC().Format(time.RFC3339Nano)), one(v.Reason)}
+			})
+		}
+		{
+			v := stanza.Delay{From: g.jid(), Stamp: g.time(false), Reason: g.opt()}
+			recCase(c, "stanza.Delay", v, v.TokenReader(), func(v *stanza.Delay) []fv {
+				return []fv{one(v.From.String()), one(v.Stamp.UTC().Format(time.RFC3339Nano)), one(v.Reason)}
+			})
+		}
+		{
+			v := commands.Note{Type: commands.NoteType(g.r.Intn(3)), Value: g.text()}
+			recCase(c, "commands.Note", v, v.TokenReader(), func(v *commands.Note) []fv {
+				return []fv{one(v.Type.String()), one(v.Value)}
+			})
+		}
+		{
+			ages := []time.Duration{0, time.Second, 90 * time.Second, 1500 * time.Millisecond, 400 * time.Millisecond}
+			v := bin.Data{CID: g.opt(), MaxAge: ages[g.r.Intn(len(ages))], NoCache: g.r.Chance(1, 4), Type: g.opt(), Data: g.bytes()}
+			recCase(c, "bin.Data", v, v.TokenReader(), func(v *bin.Data) []fv {
+				age := ""
+				switch {
+				case v.NoCache:
+					age = "0"
+				case v.MaxAge > 0:
+					if a := strconv.FormatFloat(v.MaxAge.Seconds(), 'f', 0, 64); a != "0" {
+						age = a
+					}
+				}
+				return []fv{one(v.CID), one(age), one(v.Type), one(base64.StdEncoding.EncodeToString(v.Data))}
+			})
+		}
+		{
+			v := g.hash()
+			recCase(c, "crypto.Hash", v, v.TokenReader(), func(v *crypto.Hash) []fv { return []fv{one(v.String())} })
+		}
+		{
+			v := crypto.HashOutput{Hash: g.hash(), Out: append([]byte{7}, g.bytes()...)}
+			recCase(c, "crypto.HashOutput", v, v.TokenReader(), func(v *crypto.HashOutput) []fv {
+				return []fv{one(v.Hash.String()), one(base64.StdEncoding.EncodeToString(v.Out))}
+			})
+		}
+		{
+			v := styling.Unstyled{Value: true}
+			recCase(c, "styling.Unstyled", v, v.TokenReader(), func(v *styling.Unstyled) []fv { return nil })
+		}
+		{
+			v := receipts.Requested(true)
+			recCase(c, "receipts.Requested", v, v.TokenReader(), func(v *receipts.Requested) []fv { return nil })
+		}
+		{
+			v := muc.Invitation{XMLName: xml.Name{Space: muc.NSConf, Local: "x"}, Continue: g.r.Bool(), JID: g.njid(), Password: g.opt(), Reason: g.opt(), Thread: g.opt()}
+			recCase(c, "muc.Invitation(direct)", v, v.TokenReader(), func(v *muc.Invitation) []fv {
+				cont, thread := "", ""
+				if v.Continue {
+					cont, thread = "true", v.Thread
+				}
+				return []fv{one(cont), one(v.JID.String()), one(v.Password), one(v.Reason), one(thread)}
+			})
+		}
+		{
+			type itemEl struct {
+				XMLName xml.Name `xml:"item"`
+				muc.Item
+			}
+			v := itemEl{Item: muc.Item{JID: g.jid(), Affiliation: muc.Affiliation(g.r.Intn(5)), Nick: g.opt(), Role: muc.Role(g.r.Intn(4)), Reason: g.opt()}}
+			recCase(c, "muc.Item", v, nil, func(v *itemEl) []fv {
+				aff, role := "", ""
+				if v.Affiliation != muc.AffiliationNone {
+					aff = v.Affiliation.String()
+				}
+				if v.Role != muc.RoleNone {
+					role = v.Role.String()
+				}
+				return []fv{one(aff), one(v.JID.String()), one(v.Nick), one(role), one(v.Reason)}
 			})
 		}
 		// composite payloads
